@@ -145,6 +145,8 @@ pub fn eval(case: &str) -> Out {
         "sd" if w.len() == 6 => eval_serde(w[2], w[5]),
         "lj" if w.len() == 4 => eval_locktime_json(w[2], w[3]),
         "lc" if w.len() == 4 => eval_locktime_ctor(w[2], w[3]),
+        "ad" if w.len() == 6 => eval_address(w[2], w[3], w[4], w[5]),
+        "pt" if w.len() == 3 => eval_pset_text(w[2]),
         "dm" if w.len() == 3 => eval_probe(w[2]),
         "ps" if w.len() == 7 => eval_pset_serde(w[6]),
         _ => Out::ok("harnesserr kind".into()),
@@ -380,6 +382,47 @@ fn gen_pset_serde(rng: &mut ChaCha20Rng, n: usize, thorough: bool, out: &mut Vec
         ps(&p, tags, out);
     }
 }
+/// `C20 ad <net> <pkh|sh|wp<ver>> <payload hex> <blinder hex|->`: an Address built field by field (not through FromStr), then Display -> FromStr and the
+/// serde JSON / CBOR round trips (its serde form is its Display string).  Result "<hex of the text> <verdict> J <json> <verdict> C <cbor hex> <verdict>".
+fn eval_address(net: &str, kind: &str, pl: &str, bl: &str) -> Out {
+    use elements::address::Payload;
+    use elements::bitcoin::hashes::Hash as _;
+    let bad = || Out::ok("harnesserr value".into());
+    let params = match crate::addr::NETS.iter().find(|n| n.0 == net) { Some(n) => n.1, None => return bad() };
+    let data = match if pl == "-" { Some(vec![]) } else { unhex(pl) } { Some(d) => d, None => return bad() };
+    let payload = match kind {
+        "pkh" => match <[u8; 20]>::try_from(&data[..]) { Ok(a) => Payload::PubkeyHash(elements::PubkeyHash::from_byte_array(a)), Err(_) => return bad() },
+        "sh" => match <[u8; 20]>::try_from(&data[..]) { Ok(a) => Payload::ScriptHash(elements::ScriptHash::from_byte_array(a)), Err(_) => return bad() },
+        k if k.starts_with("wp") => match k[2..].parse::<u8>() { Ok(v) if v <= 16 => Payload::WitnessProgram { version: crate::addr::fe(v), program: data }, _ => return bad() },
+        _ => return bad(),
+    };
+    let blinding_pubkey = if bl == "-" { None } else { match unhex(bl).and_then(|b| elements::secp256k1_zkp::PublicKey::from_slice(&b).ok()) { Some(k) => Some(k), None => return bad() } };
+    let a = elements::Address { params, payload, blinding_pubkey };
+    let s = a.to_string();
+    let mut fail: Option<String> = None;
+    let v = |r: Option<elements::Address>| match r { Some(b) if b == a => "ok same", Some(_) => "ok diff", None => "err" };
+    let tv = v(elements::Address::from_str(&s).ok());
+    if tv != "ok same" { fail = Some(format!("address-text-roundtrip|Address {} {} (blinded: {}) prints as {:?}, which does not parse back to it ({})", net, kind, bl != "-", s, tv)); }
+    let j = serde_json::to_string(&a).unwrap_or_else(|e| format!("serr {}", e));
+    let jv = v(serde_json::from_str::<elements::Address>(&j).ok());
+    let c = serde_cbor::to_vec(&a).unwrap_or_default();
+    let cv = v(serde_cbor::from_slice::<elements::Address>(&c).ok());
+    if fail.is_none() && (jv != "ok same" || cv != "ok same") { fail = Some(format!("address-serde-roundtrip|Address {} {} (blinded: {}): JSON {} CBOR {}", net, kind, bl != "-", jv, cv)); }
+    Out { result: format!("{} {} J {} {} C {} {}", hex(s.as_bytes()), tv, j, jv, hex(&c), cv), pred_fail: fail }
+}
+/// `C20 pt <hex of a PSET>`: PartiallySignedTransaction Display (padded standard base64) -> FromStr.  Result "len%3=<r> <base64 text> <verdict>".
+fn eval_pset_text(arg: &str) -> Out {
+    use elements::pset::PartiallySignedTransaction as Pset;
+    let bytes = match unhex(arg) { Some(b) => b, None => return Out::ok("harnesserr hex".into()) };
+    let p: Pset = match elements::encode::deserialize::<Pset>(&bytes) { Ok(p) => p, Err(_) => return Out::ok("harnesserr pset".into()) };
+    let s = p.to_string();
+    let (verdict, fail) = match Pset::from_str(&s) {
+        Ok(q) if q == p => ("ok same", None),
+        Ok(_) => ("ok diff", Some(format!("pset-text-roundtrip|a PSET of {} bytes (len%3={}) prints as base64 that parses to a different PSET", bytes.len(), bytes.len() % 3))),
+        Err(e) => ("err", Some(format!("pset-text-roundtrip|a PSET of {} bytes (len%3={}) does not parse its own printed base64 form: {}", bytes.len(), bytes.len() % 3, e))),
+    };
+    Out { result: format!("len%3={} {} {}", bytes.len() % 3, s, verdict), pred_fail: fail }
+}
 /// `C20 lc <constructor> <n>`: a LockTime built through one of its constructors, then Display -> FromStr.  FromStr goes through from_consensus only, so the
 /// other constructors (from_height / from_time / the enum variants over Height::from_consensus and Time::from_consensus) must agree with it on which side of
 /// the threshold a value lies.
@@ -523,8 +566,51 @@ fn gen_serde(rng: &mut ChaCha20Rng, n: usize, thorough: bool, out: &mut Vec<Case
     }
 }
 
+/// addresses built field by field: every network x blinded or not x (p2pkh, p2sh, v0 with 20/32 bytes, v1..v16 with 2/20/32/40 bytes)
+fn gen_addresses(rng: &mut ChaCha20Rng, out: &mut Vec<Case>) {
+    for (net, _) in crate::addr::NETS.iter() {
+        for blinded in [false, true] {
+            let mut shapes: Vec<(String, usize)> = vec![("pkh".into(), 20), ("sh".into(), 20), ("wp0".into(), 20), ("wp0".into(), 32)];
+            for v in 1..=16 { for l in [2usize, 20, 32, 40] { shapes.push((format!("wp{}", v), l)); } }
+            for (kind, len) in shapes {
+                let bl = if blinded { hex(&rpubkey(rng).serialize()) } else { "-".to_string() };
+                out.push(Case { text: format!("C20 ad {} {} {} {}", net, kind, hex(&rbytes(rng, len)), bl),
+                                tags: vec!["text:Address".into(), "serde:address".into(), format!("addr:{}{}", if blinded { "blinded-" } else { "" }, if kind.starts_with("wp") { if kind == "wp0" { "v0" } else if kind == "wp1" { "v1" } else { "v2-16" } } else { kind.as_str() })], nontrivial: true });
+            }
+        }
+    }
+}
+/// PSET text form: serialized lengths in all three residues mod 3 (an unknown global pair of 0 / 1 / 2 value bytes steers the residue)
+fn gen_pset_text(rng: &mut ChaCha20Rng, n: usize, out: &mut Vec<Case>) {
+    use crate::c07::{base, set_global, set_input, set_output, N_GLOBAL, N_INPUT, N_OUTPUT};
+    use elements::pset::{raw, PartiallySignedTransaction as Pset};
+    let mut bases: Vec<Pset> = Vec::new();
+    for v in repo_hex_vectors() { if v.len() < 30_000 && v.starts_with(b"pset\xff") { if let Ok(p) = elements::encode::deserialize::<Pset>(&v) { bases.push(p); } } }
+    for (ni, no) in [(0usize, 0usize), (1, 1), (2, 1)] { bases.push(base(rng, ni, no)); }
+    for _ in 0..(n / 20).max(4) {
+        let mut tags = vec![];
+        let (ni, no) = (rng.gen_range(0..3), rng.gen_range(0..3));
+        let mut p = base(rng, ni, no);
+        for _ in 0..rng.gen_range(0..3) { let f = rng.gen_range(0..N_GLOBAL); set_global(&mut p, f, rng, &mut tags); }
+        for i in 0..ni { for _ in 0..rng.gen_range(0..5) { let f = rng.gen_range(0..N_INPUT); set_input(&mut p.inputs_mut()[i], f, rng, &mut tags); } }
+        for i in 0..no { for _ in 0..rng.gen_range(0..3) { let f = rng.gen_range(0..N_OUTPUT); if f == 12 || f == 13 || f == 10 { continue; } set_output(&mut p.outputs_mut()[i], f, rng, &mut tags); } }
+        bases.push(p);
+    }
+    for p in bases {
+        for pad in 0..3usize {
+            let mut q = p.clone();
+            q.global.unknown.insert(raw::Key { type_value: 0xf0, key: vec![0x20] }, vec![0x5a; pad]);
+            let b = elements::encode::serialize(&q);
+            if b.len() > 30_000 || elements::encode::deserialize::<Pset>(&b).is_err() { continue; }
+            out.push(Case { text: format!("C20 pt {}", hex(&b)), tags: vec!["text:PartiallySignedTransaction".into(), format!("len%3={}", b.len() % 3)], nontrivial: true });
+        }
+    }
+}
+
 pub fn gen(rng: &mut ChaCha20Rng, n: usize, thorough: bool) -> Vec<Case> {
     let mut out = Vec::new();
+    gen_addresses(rng, &mut out);
+    gen_pset_text(rng, n, &mut out);
     gen_serde(rng, n, thorough, &mut out);
     gen_pset_serde(rng, n, thorough, &mut out);
     // ---- hash newtypes and blinding factors
